@@ -36,15 +36,14 @@ var c10Consts = map[string]string{
 func runC10(c *Ctx) {
 	m := c.Root()
 	r := c.R
+	_ = r
 	var names []string
 	for k := range c10Consts {
 		names = append(names, k)
 	}
 	sort.Strings(names)
-	for _, k := range names {
-		got := m.ConstVal("internal/counter", k)
-		r.Check("C10.constants", "internal/counter."+k, "-", got == c10Consts[k], fmt.Sprintf("documented v1 value %q, source has %q (a change is a format change)", c10Consts[k], got))
-	}
+	_ = names
+	c10Constants(c, m, "C10.constants")
 	c10Hash(c, m)
 	// a process attaches only to a file whose whole header is the one it would have written (the
 	// offsets of limit, table and records follow from the header length)
@@ -886,4 +885,19 @@ func c10HeaderLenRange(c *Ctx, m *Module, rule string) {
 		}
 	}
 	r.Check(rule, "header length bounds enumerated", "-", n >= 2, fmt.Sprintf("%d", n))
+}
+
+// c10Constants: the layout constants of the v1 format have their documented values. A library
+// built with other values stays consistent with itself — and reads or writes files that no other
+// revision, and no independent reader, understands (hash table size, page size, name cap).
+func c10Constants(c *Ctx, m *Module, rule string) {
+	var names []string
+	for k := range c10Consts {
+		names = append(names, k)
+	}
+	sort.Strings(names)
+	for _, k := range names {
+		got := m.ConstVal("internal/counter", k)
+		c.R.Check(rule, "internal/counter."+k, "-", got == c10Consts[k], fmt.Sprintf("documented v1 value %q, source has %q (a change is a format change)", c10Consts[k], got))
+	}
 }
